@@ -129,6 +129,18 @@ type DiskSeam struct {
 	CancelAt  int
 	Cancel    func()
 	Cancelled bool
+
+	// Park, when set, parks the calling request just before the call with this
+	// ordinal (overlap.go: a reader between two of its file-system calls while
+	// other requests are served). It survives BeginStep and clears itself.
+	Park *seamGate
+}
+
+type seamGate struct {
+	at       int
+	stalled  chan struct{}
+	release  chan struct{}
+	ordinalA int
 }
 
 func (d *DiskSeam) BeginStep(faults []Fault) {
@@ -165,6 +177,11 @@ func (d *DiskSeam) Before(c *simos.Call) *simos.Inject {
 	}
 	j := d.ordinal
 	d.ordinal++
+	if g := d.Park; g != nil && j == g.at {
+		d.Park = nil
+		close(g.stalled)
+		<-g.release
+	}
 	if j == d.CancelAt && d.Cancel != nil && !d.Cancelled {
 		d.Cancelled = true
 		d.Cancel()
